@@ -63,16 +63,16 @@ def showOptNat : Option Nat → String
 
 def report (w : World) (items : List Item) : String :=
   let its := if items.isEmpty then "-" else ",".intercalate (items.map showItem)
-  let hdrs := if w.segs.isEmpty then "-" else ",".intercalate (w.segs.map fun s => hexArg (encodeHeader s.seg))
+  let hdrs := if w.segs.n = 0 then "-" else ",".intercalate (w.segs.toList.map fun s => hexArg (encodeHeader s.seg))
   s!"{its} | {hdrs} | held={w.held.length}"
 
-def init : World := { segs := [], cached := none, held := [] }
+def init : World := { segs := Segs.empty, cached := none, held := [] }
 
 def step (w : World) (ws : List String) : World × String :=
   match ws with
   | ["seg", k, n] => match k.toNat?, n.toNat? with
     | some k, some n =>
-      if k = w.segs.length then ({ w with segs := w.segs ++ [SegSt.create n] }, "ok") else (w, "bad-op")
+      if k = w.segs.n then ({ w with segs := w.segs.push (SegSt.create n) }, "ok") else (w, "bad-op")
     | _, _ => (w, "bad-op")
   | ["unary", adv, p, via, out, hold] =>
     match parseAdv adv, parseB p, parseVia via, parseOutcome out, parseBool hold with
